@@ -71,7 +71,11 @@ func Project(doc, projection bsonkit.Doc) (bsonkit.Doc, error) {
 		res = &bson.D{}
 
 		// copy id
-		_, err := bsonkit.Put(res, "_id", bsonkit.Get(doc, "_id"), false)
+		id := bsonkit.Get(doc, "_id")
+		if id != bsonkit.Missing {
+			id = bsonkit.CloneValue(id)
+		}
+		_, err := bsonkit.Put(res, "_id", id, false)
 		if err != nil {
 			return nil, err
 		}
@@ -86,7 +90,9 @@ func Project(doc, projection bsonkit.Doc) (bsonkit.Doc, error) {
 			}
 			value := bsonkit.Get(doc, path)
 			if value != bsonkit.Missing {
-				_, err = bsonkit.Put(res, path, value, false)
+				// copy the value as later puts (overlapping paths, operator
+				// overlays) would otherwise write into the original document
+				_, err = bsonkit.Put(res, path, bsonkit.CloneValue(value), false)
 				if err != nil {
 					return nil, err
 				}
@@ -105,7 +111,9 @@ func Project(doc, projection bsonkit.Doc) (bsonkit.Doc, error) {
 
 	// merge fields (overlays from operator expressions)
 	for path, value := range state.merge {
-		_, err := bsonkit.Put(res, path, value, false)
+		// copy the overlay as it references parts of the original document
+		// that a later overlay on a nested path would otherwise write into
+		_, err := bsonkit.Put(res, path, bsonkit.CloneValue(value), false)
 		if err != nil {
 			return nil, err
 		}
